@@ -468,8 +468,14 @@ def known_class(step, failure, prev, y_prev):
     """narrow input classes of recorded findings (C25.findings.json); appended to the finding key.
     step = the step that failed, prev = its dask input, y_prev = its NumPy shadow input."""
     try:
-        if step == "topk" and failure in ("shape", "block-shape") and y_prev.ndim >= 1 and y_prev.shape[-1] < 2:
-            return "k>axis-length"
+        if step == "topk" and failure in ("shape", "block-shape") and y_prev.ndim >= 1:
+            n_last = y_prev.shape[-1]
+            if _unknown_chunks(prev):
+                # the length dask really has (it can be shorter than NumPy's when an upstream step already lost data, e.g. the
+                # recorded cumsum-over-an-empty-block defect): the class is about topk's OWN input
+                n_last = np.asarray(prev.compute(scheduler="sync")).shape[-1]
+            if n_last < 2:
+                return "k>axis-length"
         if step == "bincount" and failure in ("shape", "block-shape") and y_prev.size and int(y_prev.max()) + 1 > 3:
             return "minlength<=max"
         if step == "cumsum0" and failure == "compute-raises:ValueError" and _has_empty_block(prev, 0):
